@@ -37,6 +37,7 @@ def _seq_of_reader(rd):
 
 class ExprDecodeLoop(instrument.LoopSpec):
     local_names = ("op", "op_read")
+    mutates = ("ops",)
 
     def __init__(self, ctx, iterable, env):
         super().__init__(ctx, iterable, env)
